@@ -46,8 +46,9 @@ WALK_PROCS = {'quick': 12, 'thorough': 5}     # forked children of shard 0
 FRESH_JOBS = {'quick': 2, 'thorough': 1}      # concurrent fresh interpreters per shard
 RANDOM_HISTORIES = {'quick': (200, 8), 'thorough': (5000, 30)}
 STATE_CAP = {'quick': 5000, 'thorough': 20000}
-REPLAY_ALL_LIMIT = 300       # every violating (history, probe) of the walk is replayed fresh up to this many ...
-REPLAY_PER_SIGNATURE = 2     # ... beyond it: this many per distinct symptom, plus every violating state's digest
+REPLAY_ALL_LIMIT = 160       # every violating (history, probe) of the walk is replayed fresh up to this many ...
+REPLAY_PER_SIGNATURE = 2     # ... beyond it: this many per distinct symptom (at most REPLAY_ALL_LIMIT in all),
+MAX_DIGEST_REPLAYS = 96      # ... plus the digest of every violating state (at most this many, shortest first)
 ALT_DIGESTS = {'quick': 48, 'thorough': 400}
 
 KEY_D5 = 'c09.spectral-lines-units-lost'
@@ -175,6 +176,11 @@ def _judge(ctx, case, origin, res=None, shrink=False):
         small = _shrink(ctx, case, sym)
         if small['history'] != h:
             return _judge(ctx, small, origin)
+    seen = _state.setdefault('reported', set())
+    if (tuple(h), probe) in seen:          # the same case reached again (walk / alternative history / reload list)
+        ctx.count('duplicate_violation_reports_suppressed')
+        return True
+    seen.add((tuple(h), probe))
     detail = {'origin': origin, 'probe': probe,
               'explicit_emission_init_first': _emission_first_touch_is_explicit_init(h, probe)}
     if probe == 'digest':
@@ -220,7 +226,7 @@ def check_walk(ctx, case):
         _judge(ctx, {'history': list(X.CANON) + list(_state['events']), 'probe': 'digest'}, 'canonical')
     if X.abstract_state(False) == _state['canon_state']:
         ctx.harness_error('the pristine interpreter already is in the canonical (all loaded) state')
-    w = X.Walk(_state['events'], _state['canon_vals'], _state['canon_digest'], fine=fine, cap=case['cap'],
+    w = X.Walk(X.alphabet('quick'), _state['canon_vals'], _state['canon_digest'], fine=fine, cap=case['cap'],
                nproc=WALK_PROCS[ctx.tier], log=lambda s: _log(ctx, s))
     w.run()
     _log(ctx, 'walk done: %d states, %d transitions, closed=%s capped=%s, %d event / %d digest discrepancies'
@@ -279,24 +285,31 @@ def check_walk(ctx, case):
     for e in w.errors[:8]:
         ctx.harness_error('walk: ' + e)
 
-    # -- fresh-interpreter confirmation of every violating history
-    cases = [{'history': h, 'probe': 'digest'} for h, _, _, _ in w.digest_violations]
+    # -- fresh-interpreter confirmation of every violating history (all of them while they are few;
+    #    beyond the limits: the shortest histories of every violating state and of every distinct symptom)
+    dv = sorted(w.digest_violations, key=lambda r: (len(r[0]), r[0]))
+    cases = [{'history': h, 'probe': 'digest'} for h, _, _, _ in dv[:MAX_DIGEST_REPLAYS]]
+    not_replayed = max(0, len(dv) - MAX_DIGEST_REPLAYS)
     ev = w.event_violations
     if len(ev) > REPLAY_ALL_LIMIT:
         by = {}
         for h, e, v in ev:
             by.setdefault((e, json.dumps(v)[:200]), []).append(h)
         ev2 = []
-        for (e, v), hs in sorted(by.items()):
+        for (e, v), hs in by.items():
             hs.sort(key=lambda h: (len(h), h))
             # spread over the violating states: the shortest and the longest history (and in between)
             step = max(1, (len(hs) - 1) // max(1, REPLAY_PER_SIGNATURE - 1))
             pick = sorted(set(list(range(0, len(hs), step))[:REPLAY_PER_SIGNATURE - 1] + [len(hs) - 1]))
             ev2 += [(hs[i], e, v) for i in pick]
-        ctx.count('walk_event_discrepancies_not_replayed', len(ev) - len(ev2))
-        ctx.note('%d event-level discrepancies in the walk; %d replayed fresh (%d per distinct symptom) plus the '
-                 'digest of every violating state' % (len(ev), len(ev2), REPLAY_PER_SIGNATURE))
+        ev2.sort(key=lambda r: (len(r[0]), r[0], r[1]))
+        ev2 = ev2[:REPLAY_ALL_LIMIT]
+        not_replayed += len(ev) - len(ev2)
+        ctx.note('%d event-level discrepancies in the walk with %d distinct symptoms; %d replayed fresh (up to %d per '
+                 'symptom, shortest histories first) plus the digest of the violating states'
+                 % (len(ev), len(by), len(ev2), REPLAY_PER_SIGNATURE))
         ev = ev2
+    ctx.count('walk_discrepancies_not_replayed', not_replayed)
     cases += [{'history': h, 'probe': e} for h, e, _ in ev]
     ctx.count('walk_discrepancies', len(w.event_violations) + len(w.digest_violations))
     if cases:
@@ -324,6 +337,13 @@ def _fresh_cases(ctx):
         for a in reps:
             for b in reps:
                 cases.append({'history': [a, b], 'probe': 'digest', 'origin': 'pair'})
+    # reload idempotence, systematically: a second load of a group must not change what is served
+    for g, d in X.GROUPS.items():
+        read = 'read:%s:%s' % (d['attrs'][0], d['canon'])
+        init = 'init:emission' if g == 'emission' else 'init:' + d['module']
+        again = init if g == 'emission' else 'reinit:' + d['module']
+        for h in ([read, again], [again, again], [init, again, read], [read, again, again]):
+            cases.append({'history': h, 'probe': 'digest', 'origin': 'reload'})
     n, maxlen = RANDOM_HISTORIES[ctx.tier]
     for _ in range(n):
         cases.append({'history': X.random_history(rng, events, maxlen), 'probe': 'digest', 'origin': 'random'})
@@ -377,6 +397,7 @@ def finish(ctx):
         ctx.require('fired.%s.init' % g, 1, 'loader of group %s must have been fired by an explicit init(elements)' % g)
     n, _ = RANDOM_HISTORIES[ctx.tier]
     ctx.require('fresh_replays.random', n, 'every random history must have been replayed in a fresh interpreter')
+    ctx.require('fresh_replays.reload', 4 * len(X.GROUPS), 'every reload history must have been replayed in a fresh interpreter')
 
 
 def classify(rec):
